@@ -12,6 +12,10 @@
 (*          <<"infail", 0>>                                                *)
 (*   claim  "complete"   the call returned normally and stands for the     *)
 (*                       whole run (execute -> Ok, execute_limited -> true)*)
+(*          "returned"   the call returned normally, and the harness cannot *)
+(*                       tell whether a fault was reached (an absent input *)
+(*                       source leaves no trace at the Read object): the   *)
+(*                       machine must have halted or stopped               *)
 (*          "unfinished" execute_limited returned false                    *)
 (*          "stopped"    the call returned normally after the injected     *)
 (*                       I/O fault was hit                                 *)
@@ -19,6 +23,10 @@
 (*          "crashed"    the call did not come back normally (signal,       *)
 (*                       panic, error result); no behaviour of the machine *)
 (*                       explains that, the trace is rejected              *)
+(*          "aborted"    the process ended through the allocation-failure   *)
+(*                       abort or a panic after the allocator refused a    *)
+(*                       request (field `refused'); what was recorded up   *)
+(*                       to then must be a prefix (C17)                    *)
 (*          "classify"   no recording; just run the machine and report     *)
 (*   mustFinish  1: the budget was effectively unlimited, so "unfinished"  *)
 (*               is only acceptable for a canonically divergent run        *)
@@ -43,13 +51,17 @@ Claim      == Cases[c].claim
 MustFinish == Cases[c].mustFinish = 1
 Consumed(k) == k = Len(Log) + 1
 
-PrefixClaim == Claim \in {"unfinished", "running"}
+PrefixClaim == Claim \in {"unfinished", "running", "aborted"}
 
 TraceInit ==
   /\ Init
   /\ l = 1
   /\ IF Claim = "crashed"       \* killed by a signal, panicked, or returned an error
      THEN verdict = "rejected" /\ why = <<"abnormal-termination", Cases[c].detail>>
+     ELSE IF Cases[c].refused > 0 /\ Claim # "aborted"
+     THEN verdict = "rejected" /\ why = <<"continued-after-refused-allocation", Claim>>
+     ELSE IF Claim = "aborted" /\ Cases[c].refused = 0
+     THEN verdict = "rejected" /\ why = <<"aborted-without-refused-allocation", Cases[c].detail>>
      ELSE IF PrefixClaim /\ ~MustFinish /\ Log = <<>>
      THEN verdict = "accepted" /\ why = <<"prefix", 0>>
      ELSE verdict = "run" /\ why = <<>>
@@ -66,7 +78,7 @@ Judge(k, beyond) ==
          ELSE Decide("run", why)
     [] Claim # "classify" /\ status' = "halted" ->
          IF ~Consumed(k) THEN Decide("rejected", <<"extra-event", k, Log[k]>>)
-         ELSE CASE Claim = "complete"   -> Decide("accepted", <<"complete", k - 1>>)
+         ELSE CASE Claim \in {"complete", "returned"} -> Decide("accepted", <<"complete", k - 1>>)
                 [] Claim = "unfinished" ->
                      IF MustFinish
                      THEN Decide("rejected", <<"unfinished-with-unlimited-budget-but-canonical-run-halts", steps'>>)
@@ -80,7 +92,7 @@ Judge(k, beyond) ==
               THEN IF MustFinish /\ beyond
                    THEN Decide("rejected", <<"unfinished-with-unlimited-budget-but-canonical-run-stops", steps'>>)
                    ELSE Decide("accepted", <<"prefix", k - 1>>)
-         ELSE IF Claim = "stopped" THEN Decide("accepted", <<"stopped", k - 1>>)
+         ELSE IF Claim \in {"stopped", "returned"} THEN Decide("accepted", <<"stopped", k - 1>>)
          ELSE Decide("rejected", <<"fault-reached-but-claim-is", Claim, k>>)
     [] Claim # "classify" /\ status' = "capped" ->
          IF PrefixClaim /\ ~MustFinish /\ Consumed(k)
